@@ -846,13 +846,19 @@ def fam_polyn(thorough, variant):
         A("x = xs[0]", {"xs": "L"}, {"x": "L"}, tag="array-read"),
         A("xs = array(x for _ in range(n))", {"x": "L"}, {"xs": "L"}, tag="array-comp"),
         A("ys = xs", {"xs": "L"}, {"xs": "D", "ys": "L"}, tag="move"),
+        # a builtin (custom) function loaded as a VALUE is compiled under its own monomorphisation in the middle
+        # of this generic body
+        A("q0 = qubit()\ngate(h, q0)\ndiscard(q0)", None, None, tag="builtin-as-value"),
         A("return x", {"x": "L"}, kind="return"),
         A("break", kind="break"),
     ]
+    gate_hdr = "from collections.abc import Callable\n\n@guppy\ndef gate(f: Callable[[qubit], None], q: qubit) -> None:\n    f(q)\n\n"
     vs = [Var("a", "bool", "L"), Var("b", "bool", "L"), Var("x", "int", "L"), Var("xs", "arr", "L"),
           Var("ys", "arr"), Var("i", "int")]
     kw = dict(compounds=("if", "ifelse", "while", "for"), depth_max=2, range_arg="n",
               n_max=4 if thorough else (3 if variant == "gen" else 2), for_k_max=_fk(thorough))
+    if variant != "both":
+        kw["header"] = gate_hdr
     if variant == "gen":
         return Family("polyn", "@guppy\ndef main[n: nat](a: bool, b: bool, x: int, xs: array[int, n] @owned) -> int:",
                       vs, atoms, _ret("x"), tags=("generic-body", "polymorphic", "nat-param"), **kw)
@@ -866,7 +872,7 @@ def fam_polyn(thorough, variant):
     vs = vs + [Var("v", "A", "L")]
     return Family("polyn-part", "@guppy\ndef main[T: Drop](n: nat @comptime, a: bool, b: bool, x: int, xs: array[int, n] @owned, v: T @owned) -> int:",
                   vs, atoms, _ret("x"), entry="caller",
-                  header="@guppy\ndef ident[T](x: T @owned) -> T:\n    return x\n\n",
+                  header=gate_hdr + "@guppy\ndef ident[T](x: T @owned) -> T:\n    return x\n\n",
                   footer="\n@guppy\ndef caller[T: Drop](a: bool, b: bool, v: T @owned, w: T @owned) -> int:\n"
                          "    return main(2, a, b, 0, array(1, 2), v) + main(3, b, a, 1, array(1, 2, 3), w)\n",
                   tags=("generic-body", "partial-mono"), **kw)
